@@ -24,6 +24,23 @@ class SimError(Exception):
         return not FALSY[0]
 
 
+class OddEq(object):
+    def __init__(self, n):
+        self.n = n
+
+    def __eq__(self, other):
+        raise ValueError("the truth value of a comparison with OddEq is ambiguous")
+
+    __ne__ = __eq__
+    __hash__ = None
+
+    def __bool__(self):
+        raise ValueError("the truth value of OddEq is ambiguous")
+
+    def __repr__(self):
+        return "OddEq(%d)" % self.n
+
+
 class SimBaseError(BaseException):
     """A user-defined BaseException subclass (thorough tiers)."""
 
@@ -182,6 +199,10 @@ def task_value(inst, mode):
                 return v[1]
     if mode == "const":
         return ("k", inst.tmpl)
+    if mode == "oddeq":
+        # a result object whose == does not answer with a bool (like an array) - nothing in the
+        # scheduler has any business comparing results
+        return OddEq(inst.tmpl)
     if mode == "excval":
         # an exception *instance* returned as an ordinary value (never raised)
         return ValueError("returned-as-value-%d" % inst.tmpl)
@@ -294,6 +315,47 @@ def run_step(B, inst, st):
         finally:
             B.ctx_exit(inst, cm)
         return sig
+    if op == "with2":
+        # two contexts left in the order they were entered (not nested): enter A, enter B,
+        # body 1, leave A, body 2 (B alone spans its suspensions), leave B - what a helper
+        # generator that keeps a with-block open between its yields does to its caller
+        a = B.make_ctx(inst, st[1])
+        b = B.make_ctx(inst, st[2])
+        B.ctx_enter(inst, a)
+        a.__enter__()
+        B.ctx_entered(inst, a)
+        a_open = True
+        b_open = False
+        try:
+            B.ctx_enter(inst, b)
+            b.__enter__()
+            B.ctx_entered(inst, b)
+            b_open = True
+            sig = yield from run_block(B, inst, st[3])
+            if sig is None:
+                a_open = False
+                try:
+                    a.__exit__(None, None, None)
+                finally:
+                    B.ctx_exit(inst, a)
+                sig = yield from run_block(B, inst, st[4])
+        finally:
+            import sys as _sys
+            ei = _sys.exc_info()
+            if b_open:
+                try:
+                    b.__exit__(*ei)
+                finally:
+                    B.ctx_exit(inst, b)
+            if a_open:
+                try:
+                    a.__exit__(*ei)
+                finally:
+                    B.ctx_exit(inst, a)
+        return sig
+    if op == "opt":
+        B.set_option(inst, st[1], st[2])
+        return None
     if op == "ret":
         return ("ret", task_value(inst, st[1]))
     if op == "res":
